@@ -209,6 +209,12 @@ def check(ctx) -> None:
         tgt = ctx.res.resolve_callee(c, bf)
         if tgt and tgt[0] == "func" and tgt[1] == NORM:
             n_norm += 1
+        elif tgt and tgt[0] == "func" and tgt[1] in prog.functions:
+            # a wrapper (memo, logging) whose every return is normalize_smiles(<its argument>)
+            g = prog.functions[tgt[1]]
+            rets = [r for r in own_nodes(g.node) if isinstance(r, ast.Return) and r.value is not None]
+            if rets and all(isinstance(r.value, ast.Call) and (ctx.res.resolve_callee(r.value, g) or ("", ""))[1] == NORM and r.value.args and isinstance(r.value.args[0], ast.Name) and r.value.args[0].id in g.params for r in rets):
+                n_norm += 1
     ok = n_norm >= 2
     ctx.instance("C17-O2", "benchmark normalises expected and actual reaction (%d calls)" % n_norm, bf.loc(), ok=ok)
     if not ok:
